@@ -128,7 +128,9 @@ func (r *Registry) structSort(t types.Type) string {
 	return name
 }
 
-func (si *structInfo) sel(i int) string { return si.sort + "_" + sanitize(si.fields[i]) + fmt.Sprint(i) }
+func (si *structInfo) sel(i int) string {
+	return si.sort + "_" + sanitize(si.fields[i]) + fmt.Sprint(i)
+}
 
 func (r *Registry) sortOf(t types.Type) string {
 	if t == nil {
@@ -172,7 +174,9 @@ func (r *Registry) sortOf(t types.Type) string {
 	return sAny // type params and anything unforeseen
 }
 
-func sortTag(s string) string { return sanitize(strings.NewReplacer("(", "", ")", "", " ", "_").Replace(s)) }
+func sortTag(s string) string {
+	return sanitize(strings.NewReplacer("(", "", ")", "", " ", "_").Replace(s))
+}
 
 func (r *Registry) declConst(name, srt string) {
 	if _, ok := r.consts[name]; ok {
@@ -230,7 +234,7 @@ func (r *Registry) strLit(s string) string {
 // prelude renders all declarations. Deterministic order.
 func (r *Registry) prelude() string {
 	var b strings.Builder
-	b.WriteString("(set-option :produce-models true)\n")
+	b.WriteString("(set-option :produce-models true)\n(set-logic ALL)\n")
 	b.WriteString("(declare-sort Str 0)\n(declare-fun slen (Str) Int)\n(declare-fun sat (Str Int) Int)\n")
 	b.WriteString("(declare-datatypes ((Slice 0)) (((mkslice (s_arr Int) (s_off Int) (s_len Int) (s_cap Int)))))\n")
 	b.WriteString("(declare-datatypes ((Any 0)) (((A_nil) (A_num (a_ntid Int) (a_num Int)) (A_real (a_rtid Int) (a_real Real)) (A_bool (a_btid Int) (a_bool Bool)) (A_str (a_stid Int) (a_str Str)) (A_ref (a_ptid Int) (a_ref Int)) (A_slice (a_ltid Int) (a_slice Slice)) (A_box (a_xtid Int) (a_box Int)))))\n")
